@@ -2,6 +2,8 @@
 # seed_check.sh <PROP> <seed dir> : apply an (already confirmed) seeded change to /repo, run the quick check, undo.
 # CAPTURE=1: keep the shrunk case that exposed the change as regress/<PROP>/<seed>.json (the regression tier).
 export GOFLAGS=-mod=mod GOPROXY=off GOSUMDB=off GOTOOLCHAIN=local
+# a build cache of its own: trimming it must not pull files away from under other jobs (sub-agents building in /tmp)
+export GOCACHE=${GOCACHE:-$HOME/.cache/go-build-verif}
 # every changed tree adds ~0.5-1 GB of build cache: keep it bounded (the disk filled up once)
 [ "$(du -sm ${GOCACHE:-$HOME/.cache/go-build} 2>/dev/null | cut -f1)" -gt 30000 ] 2>/dev/null && go clean -cache
 prop=$1; d=$(realpath $2)
